@@ -7,6 +7,42 @@ TB = ("trusted: rustc nightly 1.97 (type check, MIR, const eval, trait resolutio
       "the python rule library; std/regex/fxhash behave as documented")
 
 CHECKS = {
+    "C01": dict(
+        cat="other",
+        text="Static and exhaustive over the data that decides the property: both lookup tables, the 52 dispatch rows, "
+             "the 13 flush weights, the rank walk order and the rank code are extracted from the type-checked program "
+             "and every slot a seven-card hand can reach (4719 flush rank subsets + 49205 rank multiplicity vectors) is "
+             "compared with an independently constructed numbering of the 7462 classes; the three loops applying the "
+             "tables are matched against fold/threshold/walk templates that account for every call, branch and store "
+             "(order independence, threshold exactly 5, suit filter on the detected suit); ordering impls by argument "
+             "provenance. Tests sample 1001 hands in one order; this covers every slot and every order.",
+        ref="DESIGN.md §4 C01",
+        note=TB + "; the loop-template matcher and the oracle (sa/poker.py) are trusted; input cards distinct.",
+        technique="static analysis: const-evaluated table extraction + MIR decision trees vs independent oracle (exhaustive), loop-template matching, argument provenance",
+    ),
+    "C02": dict(
+        cat="other",
+        text="Necessary structural conditions only: counter width can hold 1326 positions (no narrowing length cast), "
+             "every card tested against the used-card set is also unconditionally recorded (turn, river, both hole cards), "
+             "the probability argument is 1.0 times every chosen weight, board order b0..b4 with b3=deck[turn], "
+             "b4=deck[river], odometer bound idx+1<len with +=1/reset 0. Exactly-once/completeness of the walk over runtime "
+             "states is NOT decided (no sound static argument in reach).",
+        ref="DESIGN.md §4 C02",
+        note=TB + "; decides the named clauses, not the enumeration behaviour.",
+        technique="static analysis: provenance of call arguments, must-insert / dominance rules on the MIR of the deal function, cast audit over the reachable call graph",
+    ),
+    "C08": dict(
+        cat="other",
+        text="Bounded stack is decided for every input: the resolved call graph (closures, trait-bound callbacks) under the "
+             "four evaluator entry points is acyclic. Counter narrowing, the emptiness guard of every entry-list index and "
+             "range constructions are decided by dataflow/dominance; every other potential panic site reachable from the "
+             "entry points (asserts, unwraps, indexing, panicking std calls; both overflow-check profiles in the thorough "
+             "tier) must be discharged by a rule or match an audited allowance with a stated invariant. Termination of "
+             "the deal loop is not decided.",
+        ref="DESIGN.md §4 C08, §3.4",
+        note=TB + "; audited allowances (rules/allow_panics.json) carry human-stated invariants; preconditions: valid board and scope.",
+        technique="static analysis: call-graph SCC (recursion freedom), cast/dominance rules, potential-panic site audit over MIR",
+    ),
     "C07": dict(
         cat="proof",
         text="Complete for the stated mechanism: the interval partition of hand_type() is extracted from MIR and "
